@@ -207,7 +207,11 @@ def run(tier, only=None):
     conds = [runner.Cond(HF, "h_choice", Tm, key="choice"), runner.Cond(HF, "h_choice_empty", Tm, key="choice"),
              runner.Cond(HF, "h_shuffle_injective", 2 * Tm, env={"VERIF_N": "3" if q else "4"}, key="shuffle"),
              runner.Cond(HF, "h_shuffle_draws", Tm, env={"VERIF_N": "4"}, key="shuffle"),
-             runner.Cond(HF, "h_neighbors", 3 * Tm, key="neighbors"),
+             runner.Cond(HF, "h_neighbors", 3 * Tm, name="h_neighbors[2x2,opt0-1]", env={"VERIF_OPTLO": "0", "VERIF_OPTHI": "1"}, key="neighbors"),
+             runner.Cond(HF, "h_neighbors", 3 * Tm, name="h_neighbors[2x2,opt2-3]", env={"VERIF_OPTLO": "2", "VERIF_OPTHI": "3"}, key="neighbors"),
+             runner.Cond(HF, "h_neighbors", 3 * Tm, name="h_neighbors[2x2,opt4-5]", env={"VERIF_OPTLO": "4", "VERIF_OPTHI": "5"}, key="neighbors"),
+             runner.Cond(HF, "h_neighbors", 3 * Tm, name="h_neighbors[1x3]", env={"VERIF_BH": "1", "VERIF_BW": "3"}, key="neighbors"),
+             runner.Cond(HF, "h_neighbors", 3 * Tm, name="h_neighbors[3x1]", env={"VERIF_BH": "3", "VERIF_BW": "1"}, key="neighbors"),
              runner.Cond(HF, "h_generate", 3 * Tm, env={"VERIF_STEPS": "1" if q else "2"}, key="generate_problem")]
     for kind in ("choice", "array", "array_move", "nested", "segmentation"):
         conds.append(runner.Cond(HF, "h_reproducible", 2 * Tm, name="h_reproducible[%s]" % kind, env={"VERIF_KIND": kind},
@@ -222,7 +226,7 @@ def run(tier, only=None):
     rep.bounds = {"PRNG kernels": "all seeds with |seed| < 2^63 (only the low 32 bits are used), all states in [0,2^32)^4, all (a, b) in Z^2, all "
                   "32-bit draws; randint's rejection loop unrolled twice (the 'unwind' outcome is proven to require two rejected draws)",
                   "shuffle": "N = %s: injectivity of decision sequences -> permutations (bijection by counting)" % ("3" if q else "4"),
-                  "neighbours": "ArrayBuilder2D 2x2, choice set {0,1,2}, all four symmetry/disallow_adjacent combinations, symbolic grid and draws",
+                  "neighbours": "ArrayBuilder2D on 2x2, 1x3, 3x1, choice set {0,1,2}, symmetry / disallow_adjacent / use_move combinations, symbolic grid and draws; listed values must be the values found in the copy",
                   "generate_problem": "2 Choice variables, max_steps = %s, symbolic solver / uniqueness / score verdicts and acceptance draws" % ("1" if q else "2"),
                   "reproducibility": "5 patterns (Choice list, symmetric ArrayBuilder2D, use_move, nested tuple/list, SegmentationBuilder2D 1x3); "
                   "Python's global random replaced by two independent symbolic feeds"}
